@@ -136,6 +136,15 @@ pub fn run(ctx: &mut Ctx) {
                 ctx.edge();
                 ctx.check(sub, rule, &d);
             }
+            // the bracket-less spelling of every one-operand deciding form: the operand is ONE value, whatever
+            // it evaluates to (an array that comes out of an expression is not an operand list)
+            if !e.is_array() {
+                for k in ["!", "!!", "and", "or", "if", "?:"] {
+                    ctx.edge();
+                    ctx.check(&format!("{}:bare", k), &al::obj1(k, e.clone()), &d);
+                    ctx.check(&format!("{}:bare:nested", k), &json!({"cat": [al::obj1(k, e.clone())]}), &d);
+                }
+            }
             // laws
             let o1 = ctx.exec(&positions[0].1, &d);
             let o2 = ctx.exec(&positions[1].1, &d);
@@ -212,5 +221,5 @@ pub fn run(ctx: &mut Ctx) {
     }
     crate::spaces::render_probes(ctx, &["!", "!!"]);
     crate::spaces::type_grid_probes(ctx, &["!", "!!", "if", "and", "or", "filter", "all", "some", "none"]);
-    crate::spaces::depth_probes(ctx);
+    crate::spaces::depth_probes(ctx);    crate::spaces::sweep::length_sweep(ctx);
 }
